@@ -87,6 +87,14 @@ def agree(rec, res):
 def _replay_chunk(args):
     progs, recs, opts, wdroot = args
     common.use_repo()
+    recorder = None
+    if any(o.get('ops') for o in opts):
+        from . import ops as ops_mod
+        from malt.impl import api
+        recorder = ops_mod.Recorder(probe=any(o.get('ops') == 'probe' for o in opts))
+        ag = api._TRANSPILER.get_extra_locals()['ag__']
+        ops_mod.install(ag, recorder)
+    opcalls = {}
     import logging
     wd = os.path.join(wdroot, 'w%d' % os.getpid())
     os.makedirs(wd, exist_ok=True)
@@ -116,13 +124,28 @@ def _replay_chunk(args):
             g = conv[o['name']]
             if g is None:
                 continue
+            if recorder is not None:
+                del recorder.calls[:]
+                recorder.counts = {}
             res = observe(m, g, p, rec['dec'])
             n += 1
+            if recorder is not None:
+                for c in recorder.calls:
+                    c['pid'] = pid
+                    k = repr(sorted((kk, repr(vv)) for kk, vv in c.items()))
+                    if k in opcalls:
+                        opcalls[k]['count'] += 1
+                    else:
+                        c['count'] = 1
+                        c['dec'] = rec['dec']
+                        c['opt'] = o['name']
+                        opcalls[k] = c
+                res['counts'] = dict(recorder.counts)
             why = agree(rec, res)
             if why:
                 out.append(dict(pid=pid, dec=rec['dec'], opt=o['name'], why=why, expected=mp.spec_outcome(rec),
                                 observed=res['out'], exp_log=rec['log'], obs_log=res['log'], bad=rec.get('bad', '')))
-    return dict(div=out, n=n, conv_errors=conv_errors)
+    return dict(div=out, n=n, conv_errors=conv_errors, opcalls=list(opcalls.values()))
 
 
 def replay_all(progs, recs, opts, procs=14, chunk=1500, name='replay'):
@@ -144,4 +167,5 @@ def replay_all(progs, recs, opts, procs=14, chunk=1500, name='replay'):
     for r in results:
         for e in r['conv_errors']:
             errs[(e['pid'], e['opt'])] = e
+    replay_all.opcalls = [c for r in results for c in r.get('opcalls', [])]
     return div, n, list(errs.values())
